@@ -406,7 +406,8 @@ func (gang *Gang) setChild(pod *v1.Pod) {
 	} else {
 		klog.V(6).Infof("UpdateChild, gangName: %v, childName: %v", gang.Name, podId)
 	}
-	if pod.Spec.NodeName == "" && gang.WaitingForBindChildren[podId] == nil {
+	// a pod which is already bound must not go back to pending by a stale update which does not carry the node name yet
+	if pod.Spec.NodeName == "" && gang.WaitingForBindChildren[podId] == nil && gang.BoundChildren[podId] == nil {
 		_, pendingExisted := gang.PendingChildren[podId]
 		gang.PendingChildren[podId] = pod
 		if !pendingExisted {
